@@ -112,7 +112,11 @@ def compare(case, impl, resp):
             fail("Pareto front enumeration raised " + str(val).split(":")[0], val, "a finite front")
         else:
             want = sorted(tuple(int(x) for x in v.split(",")) for v in resp["front"].split(";")) if resp["front"] else []
-            got = sorted(tuple(v) for v in val)
+            # c_inference_pareto_front documents "eta values ordered by conditional index" (ascending key); the driver's vectors
+            # follow the listing order of the base: bring the implementation's vectors into listing order before comparing
+            keys = [k for k, _, _ in case["base"]]
+            pos = {k: i for i, k in enumerate(sorted(keys))}
+            got = sorted(tuple(v[pos[k]] for k in keys) if len(v) == len(keys) else tuple(v) for v in val)
             cube = resp["front_B"]
             if len(set(got)) != len(got):
                 fail("Pareto front contains a vector twice", got, want)
@@ -198,4 +202,5 @@ def run(ctx):
         names = core.names_for(c["n"])
         ctx.sample({"base": [core.cond_text((b, a), names) for _, b, a in c["base"]], "impacts": eta, "front": impl.get("front"),
                     "driver": {k: (v[:80] if isinstance(v, str) else v) for k, v in resp.items()}})
-        ctx.failures.extend(compare(c, impl, resp))
+        for f in compare(c, impl, resp):
+            ctx.fail(f, lambda f: core.generic_shrink(f, recheck, fields=("base", "queries"), budget=30))
